@@ -233,14 +233,20 @@ def run_core(congc, ops, limit=20):
                                                for k, v in res.items())))
             except Timeout:
                 raise
-            except KeyError:
-                outs.append(("err", "key"))
-            except AssertionError:
-                outs.append(("err", "assert"))
-            except RecursionError:
-                outs.append(("err", "fuel"))
             except Exception as e:  # noqa
-                outs.append(("raise", type(e).__name__))
+                # The property does not say how a query fails, only when it may: the class of the
+                # exception is not compared.  test/explain on a constant never entered -> "key";
+                # any other failing test/explain -> "assert" (RecursionError -> "fuel").
+                # A failing add_var/merge is reported with its class (a merge must not fail).
+                if kind in ("test", "explain"):
+                    if not (op[1] in known and op[2] in known):
+                        outs.append(("err", "key"))
+                    elif isinstance(e, RecursionError):
+                        outs.append(("err", "fuel"))
+                    else:
+                        outs.append(("err", "assert"))
+                else:
+                    outs.append(("raise", type(e).__name__))
     return outs
 
 
@@ -345,9 +351,11 @@ def judge_core(ops, outs):
         elif kind == "test":
             if op[1] in known and op[2] in known:
                 want = Naive(consts, combs, known).eq(op[1], op[2])
+                if out[0] != "test":
+                    return ("test-fails", i, "%s on entered constants failed (%s)" % (op, out))
                 if out != ("test", want):
                     return ("test-" + ("unsound" if not want else "incomplete"), i, "%s answered %s, closure says %s" % (op, out, want))
-            elif out != ("err", "key"):
+            elif out[0] != "err":
                 if not (out[0] == "test" and out[1] == (op[1] == op[2])):
                     return ("test-unknown", i, "%s on a constant never entered answered %s" % (op, out))
         elif kind == "explain":
@@ -381,16 +389,18 @@ def judge_explanation(a, b, res, consts, combs):
                     return ("foreign-label", "label %s uses an application equation never merged" % (l,))
                 used_f.add(e1)
                 used_f.add(e2)
-    if a != b:
-        if not Naive(used_c, used_f, {a, b}).eq(a, b):
-            return ("insufficient", "%s = %s does not follow from the labels alone" % (a, b))
-        if not any(k == (a, b) for k, _ in res):
-            return ("no-entry", "no entry for the queried pair")
-    # every entry must itself be justified by the labels (entries are what the HOL wrapper replays)
+    if a != b and not Naive(used_c, used_f, {a, b}).eq(a, b):
+        return ("insufficient", "%s = %s does not follow from the listed equations alone" % (a, b))
+    return None
+
+
+def explanation_shape(a, b, res):
+    """What the current code additionally guarantees about the *shape* of the dictionary (not required
+    by the property, so a departure is a correspondence matter, never a violation): the queried pair
+    is a key, and the labels of every entry chain from the first to the second constant of its key."""
+    if a != b and not any(k == (a, b) for k, _ in res):
+        return "no entry for the queried pair %s" % ((a, b),)
     for (x, y), labs in res:
-        if not Naive(used_c, used_f, {x, y}).eq(x, y):
-            return ("insufficient", "entry %s does not follow from the labels" % ((x, y),))
-        # the labels of an entry must form a chain from x to y
         cur = x
         for l in labs:
             p, q = (l[1], l[2]) if l[0] == "c" else (l[3], l[6])
@@ -399,9 +409,9 @@ def judge_explanation(a, b, res, consts, combs):
             elif q == cur:
                 cur = p
             else:
-                return ("broken-chain", "labels of entry %s do not chain" % ((x, y),))
+                return "labels of entry %s do not chain" % ((x, y),)
         if cur != y:
-            return ("broken-chain", "labels of entry %s end at %s" % ((x, y), cur))
+            return "labels of entry %s end at %s" % ((x, y), cur)
     return None
 
 
@@ -439,6 +449,21 @@ def shrink_terms(hops, fails):
         changed = False
         rounds += 1
         for i, op in enumerate(cur):
+            # both terms of a query at once: corresponding immediate subterms
+            while len(op) >= 3 and isinstance(op[1], tuple) and isinstance(op[2], tuple) and op[1][0] == "app" and op[2][0] == "app":
+                for j in (2, 1):
+                    cand = cur[:i] + [(op[0], op[1][j], op[2][j]) + op[3:]] + cur[i + 1:]
+                    try:
+                        k2 = fails(cand)
+                    except Exception:  # noqa
+                        k2 = None
+                    if k2 == kind:
+                        cur = cand
+                        op = cur[i]
+                        changed = True
+                        break
+                else:
+                    break
             for pos in (1, 2):
                 if pos < len(op) and isinstance(op[pos], tuple) and op[pos][0] == "app":
                     for sub in (op[pos][1], op[pos][2]):
@@ -495,6 +520,13 @@ def check_core_batch(ctx, congc, seqs, stream, meta=None):
                 ctx.count("explanations-with-congruence-steps")
             if o[0] == "res" and len(o[1]) >= 3:
                 ctx.count("explanations-with-nested-entries")
+        for op, o in zip(ops, outs):
+            if op[0] == "explain" and o[0] == "res":
+                sh = explanation_shape(op[1], op[2], o[1])
+                if sh:
+                    ctx.count("explanation-shape-differs")
+                    if not any(n == "correspondence:c17:explain-shape" for n, _ in ctx.brokens):
+                        ctx.broken("correspondence:c17:explain-shape", "ops=%s %s: %s (result %s)" % (ops, op, sh, o[1]))
         j = judge_core(ops, outs)
         if j and len(ctx.violations) >= MAX_REPORTED:
             ctx.count("violations-beyond-the-first-%d" % MAX_REPORTED)
@@ -643,12 +675,89 @@ class HolEnv:
             r = rng.random()
             if r < 0.5:
                 out.append(("merge", s, t, rng.random() < 0.85))       # last: with proof term (assume)
+                if rng.random() < 0.12:
+                    out.append(("merge", t, s, rng.random() < 0.85))   # the same equation the other way round
             elif r < 0.62:
                 out.append(("test", s, t))
             elif r < 0.95:
                 out.append(("explain", s, t))
             else:
                 out.append(("addterm", s))
+        return out
+
+    # -- directed: one explanation that needs the same classes compared in both orientations
+    def gen_nested(self, rng, depth, heads1, heads2, leaves):
+        """Typed term of base type, nested: binary/unary heads from few symbols, leaves from few atoms."""
+        if depth == 0 or (depth == 1 and rng.random() < 0.15):
+            return rng.choice(leaves)
+        if heads1 and rng.random() < 0.3:
+            return app(rng.choice(heads1), self.gen_nested(rng, depth - 1, heads1, heads2, leaves))
+        h = rng.choice(heads2)
+        return app(app(h, self.gen_nested(rng, depth - 1, heads1, heads2, leaves)),
+                   self.gen_nested(rng, depth - 1, heads1, heads2, leaves))
+
+    def variant(self, rng, t, classes, p=0.7):
+        """Replace atoms by other members of their class (classes: list of lists of atoms)."""
+        if t[0] == "a":
+            for cl in classes:
+                if t in cl and rng.random() < p:
+                    return rng.choice(cl)
+            return t
+        return app(self.variant(rng, t[1], classes, p), self.variant(rng, t[2], classes, p))
+
+    def gen_swap_seq(self, rng):
+        """Merge a few atoms (and sometimes two function symbols), then ask for explanations between
+        two variants of one nested curried term of depth 2-3 over few atoms: the same pair of classes
+        is needed in both orientations inside one explanation.  Terms are pre-added in varied
+        orders; merges carry proof terms, or not, or mixed; equations are sometimes merged in both
+        orientations."""
+        base = [atom(i) for i in range(4)]
+        rng.shuffle(base)
+        k = rng.choice([2, 2, 2, 3])
+        cls = base[:k]
+        classes = [cls]
+        eqs = []
+        for i in range(k - 1):
+            e = (cls[i], cls[i + 1])
+            eqs.append(e if rng.random() < 0.5 else (e[1], e[0]))
+        heads1 = rng.choice([[], [atom(4)], [atom(4), atom(5)]])
+        heads2 = rng.choice([[atom(6)], [atom(6)], [atom(6), atom(7)]])
+        if len(heads1) == 2 and rng.random() < 0.5:
+            eqs.append((atom(4), atom(5)) if rng.random() < 0.5 else (atom(5), atom(4)))
+            classes.append([atom(4), atom(5)])
+        if len(heads2) == 2 and rng.random() < 0.4:
+            eqs.append((atom(6), atom(7)) if rng.random() < 0.5 else (atom(7), atom(6)))
+            classes.append([atom(6), atom(7)])
+        leaves = cls + base[k:k + rng.choice([0, 1, 2])]
+        depth = rng.choice([2, 2, 3])
+        tmpl = self.gen_nested(rng, depth, heads1, heads2, leaves)
+        t1, t2 = self.variant(rng, tmpl, classes), self.variant(rng, tmpl, classes)
+        mode = rng.choice(["pt", "pt", "pt", "none", "mixed"])
+        with_pt = lambda: mode == "pt" or (mode == "mixed" and rng.random() < 0.5)  # noqa
+        setup = [("merge", s, t, with_pt()) for s, t in eqs]
+        for s, t in eqs:                                   # the mirror image of an equation, too
+            if rng.random() < 0.3:
+                setup.append(("merge", t, s, with_pt()))
+        if rng.random() < 0.6:                             # terms enter in another order
+            subs = list(subterms(t1, {})) + list(subterms(t2, {}))
+            rng.shuffle(subs)
+            setup += [("addterm", x) for x in subs[:rng.randint(1, max(1, len(subs) // 2))]]
+        if rng.random() < 0.7:
+            rng.shuffle(setup)
+        out = list(setup)
+        out.append(("test", t1, t2))
+        pairs = [(t1, t2), (t2, t1)]
+        if t1[0] == "app" and t2[0] == "app":
+            pairs.append((t1[2], t2[2]))
+        t3 = self.variant(rng, tmpl, classes)
+        pairs.append((t3, t1))
+        rng.shuffle(pairs)
+        for s, t in pairs[:rng.randint(2, 4)]:
+            out.append(("explain", s, t))
+        if rng.random() < 0.3:                             # a late mirror merge, then explain again
+            s, t = rng.choice(eqs)
+            out.append(("merge", t, s, with_pt()))
+            out.append(("explain", t2, t1))
         return out
 
     def order_of(self, t):
@@ -846,7 +955,9 @@ def run(ctx):
         "(unknown constants, repeated and self-referential equations included); term: 2-14 merge/test/explain/add_term on untyped curried "
         "terms of depth <=3 over <=8 atoms, flattened as CongClosureHOL.add_term does; perm: equation sets of <=5 equations in all orders "
         "(thorough) or sampled orders, with flipped orientations and pre-added terms; hol: typed curried terms over a,b,c,d,f,g,R,S on the "
-        "real CongClosureHOL. Non-trivial = at least two merges; distinct by the operation list.")
+        "real CongClosureHOL, random plus directed sequences (hol-swap: two variants of one nested term of depth 2-3 over few atoms, so that "
+        "one explanation needs the same classes in both orientations; terms pre-added in varied orders; merges with and without proof "
+        "terms and in both orientations). Non-trivial = at least two merges; distinct by the operation list.")
     proofs_ok = ctx.lean_props(["Holpy.C17.Props"], exes=[EXE])
     if ctx.tier == "thorough" and proofs_ok:
         ctx.lean_check_modules(["Holpy.C17.Props"])
@@ -856,7 +967,7 @@ def run(ctx):
         "kernel checker theory.check_proof for the theorems returned by CongClosureHOL.explain (its soundness is property C01/C02)"]
     ctx.assumptions += [
         "the Lean model reads dictionaries that cannot miss with a default instead of KeyError",
-        "path_to_root / explain recursion carry fuel in the model; running out is reported as an error, never as an answer"]
+        "path_to_root / explain recursion carry fuel in the model; running out is an error outcome (Err.fuel from explain, State.stuck after a merge, reported by the driver as (err fuel)), never a shortened path or an answer"]
     from prover import congc
     corpus = load_corpus(ctx)
     ctx.log("lean obligations audited")
@@ -906,7 +1017,11 @@ def run(ctx):
     ctx.log("perm stream done")
     # HOL wrapper
     rng = ctx.rng("hol")
-    hol = [env.gen_seq(rng) for _ in range(ctx.scale(800, 6000))]
+    hol = [env.gen_seq(rng) for _ in range(ctx.scale(600, 5000))]
+    rng = ctx.rng("hol-swap")
+    swap = [env.gen_swap_seq(rng) for _ in range(ctx.scale(500, 5000))]
+    ctx.sample({"hol-swap": hops_json(swap[0])})
+    hol += swap
     for h in hol[:2]:
         ctx.sample({"hol": hops_json(h)})
     have_model &= check_hol_batch(ctx, env, congc, hol)
@@ -953,7 +1068,7 @@ MANIFEST = {
     "text": "Lean theorems about an executable model of prover/congc.py CongClosure, for every sequence of add_var/merge calls (test and "
             "explain do not change the structure, so every interleaving is covered): test_sound and test_complete (test answers True exactly "
             "for the congruence closure of the merged equations, on entered constants; test_defined_iff_entered: KeyError exactly for "
-            "constants never entered), order_independent (same answers for any two sequences with the same members) and renaming_invariant "
+            "constants never entered), order_independent (same answers for any two sequences that merge the same equations up to symmetry and enter the same constants: any order, repetitions, flipped orientation, terms added beforehand or not; order_independent_perm is the same-members corollary) and renaming_invariant "
             "(independent of how constants are numbered), pending_empty_after_merge (_propagate terminates within the modelled bound), "
             "explain_uses_inputs (every label of a returned explanation is a merged equation / a pair of merged application equations with "
             "congruent arguments, and the listed equations alone entail every explained pair). The model is tied to the code by differential "
